@@ -17,7 +17,7 @@ def run(tier, argv):
     for tag, progs, sims, maxc in plans:
         cfg = gficheck.write_cfg(f"C03_{tier}_{tag}.cfg", progs, 2, ["simulate", "update"], maxc, "all", INV, sim_scripts=sims)
         info = gficheck.run_config(chk, cfg, {"update"}, variant="eager", min_depth=2,
-                                   max_replay=900 if tier == "quick" else 15000, label=f"C03_{tier}_{tag}/eager", timeout=3000)
+                                   max_replay=600 if tier == "quick" else 15000, label=f"C03_{tier}_{tag}/eager", timeout=3000)
         chk.cov.setdefault("replay", []).append({"variant": "eager", "plan": tag, **info})
     chk.cov["rule"] = ("every (simulated trace, new argument incl. ones that flip a Cond condition or change Scan/Vmap inputs, constraint over a "
                        "lane-closed subset of <= MaxCons leaves with every value) behaviour of DoUpdate; the real discard is fed back (round trip); "
